@@ -279,6 +279,9 @@ struct nsync_note_s_ {
         nsync_mu note_mu;          /* protects fields below except "notified" */
         nsync_cv no_children_cv;    /* signalled when children becomes empty */
         uint32_t disconnecting;     /* non-zero => node is being disconnected */
+        uint32_t adoptions;         /* count of children adopted from freed children */
+        uint32_t adoptions_seen;    /* "adoptions" when children were last scanned by the
+                                       thread disconnecting this node */
         nsync_atomic_uint32_ notified;   /* non-zero if the note has been notified */
         struct nsync_note_s_ *parent;     /* points to parent, if any */
         nsync_dll_element_ *children; /* list of children */
